@@ -15,5 +15,16 @@ CLAIMED = {
         "technique": "Coq proof over translated Gallina kernels + vm_compute correspondence",
     },
 }
+CLAIMED["C15"] = {
+    "text": ("Theorems in coq/Props/C15.v (all sequences over any element type, all integer positions, no bound): s[i] is the element "
+             "at i mod len or the language's error, never a host exception; s[a to b], substr, sublist equal the contiguous run between "
+             "the clamped normalised bounds (element-wise, length, empty when crossed, never wrapping); s[0 to k] ++ s[k to *] = s for every k; "
+             "find/find_last return the first/last occurrence or -1 (strings and lists); insert_at/delete_at change exactly one position or nothing. "
+             "The theorems are about the hand model coq/Model/SeqModel.v, tied to the code by a vm_compute correspondence on every run "
+             "(every index in [-9,9] / every pair, sequences over 3 symbols) whose disagreements are concrete failing inputs."),
+    "note": ("Coq kernel + vm_compute; Prelude/PyPrelude.v as the meaning of Python slicing/indexing/str.find/rfind; the hand model is faithful "
+             "only as far as the correspondence run shows (sampling: exhaustive on the stated small domain); no axioms."),
+    "technique": "Coq proof over a hand Gallina model + vm_compute correspondence against the interpreter",
+}
 
 NOT_APPLICABLE = {}
